@@ -349,7 +349,7 @@ func checkProperty(prop string, tier int, tierName string, re *regexp.Regexp, cf
 	fmt.Printf("property %s tier=%s configs=%v harnesses=%d cases=%d obligations=%d discharged=%d (solver %d, simplifier %d) sat=%d unknown=%d reach-ok=%d faults=%d wall=%.1fs\n",
 		prop, tierName, cfgs, harnessCount, cases, nObl, nUnsat+nTriv, nUnsat, nTriv, nSat, nUnk, nReachOK, len(faults), time.Since(t0).Seconds())
 	for _, f := range faults {
-		fmt.Printf("ENGINE-FAULT (inconclusive, not a violation): %s\n", firstLines(f, 6))
+		fmt.Printf("ENGINE-FAULT (inconclusive, not a violation): %s\n", firstLines(f, 40))
 	}
 	for _, u := range undischarged {
 		fmt.Printf("UNDISCHARGED: %s\n", u)
